@@ -3,7 +3,7 @@
 shape(text) -> ("item", NAME) | ("array", key, element shape) | ("record", key, [(member key, member shape) ...])
 Rules of the document: `<ITEM>` is a data item; a list with several members is a keyed record, a list with one member is
 an open array; the key of a member is the data item name, for a nested open array of a data item that item's name, for
-any other nested list "DATA"; a name after the L tag overrides the key.  '#' starts a comment up to the line break."""
+any other nested list "DATA"; a name after the L tag overrides the key.  '#' starts a comment up to the line break (LF, CR or CRLF)."""
 from __future__ import annotations
 
 import re
@@ -14,7 +14,7 @@ class SfdlRefError(Exception):
 
 
 def tokens(text):
-    text = re.sub(r"#[^\n]*", " ", text)
+    text = re.sub(r"#[^\n\r]*", " ", text)        # a line break is LF, CR or CRLF
     return re.findall(r"[<>]|[^\s<>]+", text)
 
 
